@@ -10,6 +10,7 @@ import (
 	"strconv"
 	"time"
 
+	"verif/alpha"
 	"verif/fw"
 	"verif/props"
 )
@@ -47,6 +48,13 @@ func main() {
 	}
 	if os.Getenv("VERIF_CALIB") == "C03" {
 		props.C03Calibrate()
+		return
+	}
+	if os.Getenv("VERIF_CALIB") == "literals" {
+		if err := alpha.DumpBaseline(); err != nil {
+			fmt.Fprintln(os.Stderr, err)
+			os.Exit(2)
+		}
 		return
 	}
 	if os.Getenv("VERIF_CALIB") == "C14" {
